@@ -145,9 +145,21 @@ func granPlan(g int, r *prng.R) simio.ReadPlan {
 	return simio.ReadPlan{Name: "whole"}
 }
 
+// readsToEnd lists the readers that cannot know their document is complete before the stream says so (every format
+// but TTML, whose decoder stops at the end of the root element): a nil error from them while the source still holds
+// unread bytes - behind which the injected fault was waiting - means they stopped listening, not that all went well.
+func readsToEnd(reader string) bool { return reader != "ttml" }
+
 func c18ReadViolation(sc ReadScenario, ref, o canon.Outcome, fired bool, cues int) *Violation {
+	return c18ReadViolationAt(sc, ref, o, fired, cues, -1)
+}
+
+// c18ReadViolationAt: pos is where the source's cursor stood when the reader returned (-1: unknown).
+func c18ReadViolationAt(sc ReadScenario, ref, o canon.Outcome, fired bool, cues, pos int) *Violation {
 	var class, why string
 	switch {
+	case o.Class == "ok" && pos >= 0 && !fired && sc.Plan.Fault != nil && sc.Plan.Fault.Offset < len(sc.Data) && pos < len(sc.Data) && readsToEnd(sc.Reader):
+		class, why = "silent-truncation", fmt.Sprintf("nil error although the reader stopped at byte %d of %d and never met the failure waiting at offset %d", pos, len(sc.Data), sc.Plan.Fault.Offset)
 	case o.Class == "panic":
 		class, why = "panic-under-fault", "the reader panicked"
 	case o.Class == "overrun":
@@ -194,7 +206,7 @@ func checkC18Read(sc ReadScenario, cues int) (*Violation, *simio.Reader) {
 		}
 	}
 	o, sr := EvalRead(sc.Reader, sc.Data, sc.Plan)
-	return c18ReadViolation(sc, ref, o, sr.FaultFired(), cues), sr
+	return c18ReadViolationAt(sc, ref, o, sr.FaultFired(), cues, sr.Pos()), sr
 }
 
 var (
@@ -645,7 +657,7 @@ func RunC18(cfg Config) (*ShardResult, error) {
 							if len(res.Samples) < 2 && cfg.Shard == 0 && ok.k > 0 {
 								res.Samples = append(res.Samples, map[string]interface{}{"kind": "read", "doc": d.Name, "bytes": n, "reader": reader, "plan": p, "fired": sr.FaultFired(), "outcome": o.Class, "err": trunc(o.Err, 120)})
 							}
-							if addV(c18ReadViolation(sc, ref, o, sr.FaultFired(), -1)) {
+							if addV(c18ReadViolationAt(sc, ref, o, sr.FaultFired(), -1, sr.Pos())) {
 								return res, nil
 							}
 						}
@@ -695,7 +707,7 @@ func RunC18(cfg Config) (*ShardResult, error) {
 				if o.Class == "ok" || o.Class == "panic" || o.Class == "overrun" {
 					// the reference (fault-free parse of 17 MiB) is only computed when needed
 					ref, _ := EvalRead(reader, d.Data, simio.ReadPlan{Rest: 1 << 16})
-					if v := c18ReadViolation(sc, ref, o, sr.FaultFired(), -1); v != nil {
+					if v := c18ReadViolationAt(sc, ref, o, sr.FaultFired(), -1, sr.Pos()); v != nil {
 						// keep the replay file small: the document is regenerated from its name on replay
 						sc.Data = nil
 						b, _ := json.Marshal(C18Scenario{Kind: "huge", Read: &sc})
